@@ -185,6 +185,10 @@ def assumptions(pid: str, props_file: str, names: List[str]) -> Dict[str, Any]:
 # Known findings
 # --------------------------------------------------------------------------
 
+def allowed_axioms_of(mod: Any) -> set:
+    return set(getattr(mod, "ALLOWED_AXIOMS", []))
+
+
 def load_known(pid: str) -> List[Dict[str, Any]]:
     if not os.path.exists(KNOWN):
         return []
@@ -285,6 +289,26 @@ def check(pid: str, tier: str, seed: int) -> int:
     for n in status:
         if n not in names:
             problems.append({"kind": "broken-proof", "theorem_or_suite": n, "what": "theorem listed in THEOREMS is missing from " + mod.PROPS_FILE})
+
+    # thorough tier: independent re-check of the property's whole .vo closure with coqchk
+    coqchk_report: Dict[str, Any] = {"ran": False}
+    if tier == "thorough" and not any(p["kind"] == "broken-proof" for p in problems):
+        modname = "RG." + mod.PROPS_FILE[:-2].replace("/", ".")
+        try:
+            pr = subprocess.run(["timeout", "1800", "coqchk", "-o", "-silent", "-Q", ".", "RG", modname], cwd=COQ,
+                                capture_output=True, text=True)
+            out = pr.stdout + pr.stderr
+            summary = out[out.find("CONTEXT SUMMARY"):] if "CONTEXT SUMMARY" in out else out[-1500:]
+            axm = re.search(r"\* Axioms:(.*?)\n\s*\n\* Constants", summary, re.S)
+            axioms = [a.strip() for a in (axm.group(1).strip().splitlines() if axm else []) if a.strip() and a.strip() != "<none>"]
+            coqchk_report = {"ran": True, "rc": pr.returncode, "axioms": axioms, "summary": summary[:1500]}
+            if pr.returncode != 0:
+                problems.append({"kind": "broken-proof", "theorem_or_suite": "coqchk " + modname, "what": out[-1500:]})
+            elif set(axioms) - allowed_axioms_of(mod):
+                problems.append({"kind": "broken-proof", "theorem_or_suite": "coqchk " + modname,
+                                 "what": "coqchk reports axioms outside the allow-list: " + ", ".join(axioms)})
+        except Exception as e:  # pragma: no cover
+            coqchk_report = {"ran": True, "error": str(e)}
 
     # 3+4. correspondence and oracle
     try:
@@ -407,6 +431,7 @@ def check(pid: str, tier: str, seed: int) -> int:
             "oracle_violations_unlisted": len(violations),
             "known_findings_reproduced": reproduced,
             "search": search_stats,
+            "coqchk": coqchk_report,
             "problems": [{k: (str(v)[:600]) for k, v in p.items()} for p in problems[:10]],
             "build_wall_s": round(b["wall"], 1),
             "repo_head": repo_head(),
